@@ -24,6 +24,65 @@ Proof.
   unfold bounded_copy. destruct (Nat.ltb_spec (length s) bufsiz); intros H0; inversion H0; subst. auto.
 Qed.
 
+(* compositions: the computed path is the intended one, and there is a result exactly when every buffer on the way is
+   large enough for its intended content - no nesting of the primitives can turn a truncation into a result *)
+Theorem compute_exact e s : compute e = Some s -> s = intended e.
+Proof.
+  revert s. induction e as [t|n e IH|n d IHd f IHf]; intros s H; cbn [compute intended] in *.
+  - inversion H. reflexivity.
+  - destruct (compute e) as [r|]; [|discriminate]. apply bounded_copy_exact in H. destruct H as [-> _]. apply IH. reflexivity.
+  - destruct (compute d) as [a|]; [|discriminate]. destruct (compute f) as [b|]; [|discriminate].
+    apply pathjoin_exact in H. destruct H as [-> _]. rewrite (IHd a eq_refl), (IHf b eq_refl). reflexivity.
+Qed.
+
+Theorem compute_defined e : compute e <> None <-> all_fit e = true.
+Proof.
+  induction e as [t|n e IH|n d IHd f IHf]; cbn [compute all_fit].
+  - split; [reflexivity | discriminate].
+  - destruct (compute e) as [r|] eqn:E.
+    + pose proof (compute_exact e r E) as ->. assert (Hf : all_fit e = true) by (apply IH; discriminate). rewrite Hf. cbn [andb].
+      unfold bounded_copy. destruct (Nat.ltb (length (intended e)) n); split; intros H; try reflexivity; try discriminate. exfalso. apply H. reflexivity.
+    + split; [intros H; exfalso; apply H; reflexivity|]. intros H. apply andb_prop in H. destruct H as [H _]. apply IH in H. exfalso. apply H. reflexivity.
+  - destruct (compute d) as [a|] eqn:Ed.
+    + pose proof (compute_exact d a Ed) as ->. assert (Hd : all_fit d = true) by (apply IHd; discriminate). rewrite Hd. cbn [andb].
+      destruct (compute f) as [b|] eqn:Ef.
+      * pose proof (compute_exact f b Ef) as ->. assert (Hf : all_fit f = true) by (apply IHf; discriminate). rewrite Hf. cbn [andb intended].
+        unfold pathjoin. destruct (Nat.ltb (length (intended d ++ [47] ++ intended f)) n); split; intros H; try reflexivity; try discriminate. exfalso. apply H. reflexivity.
+      * split; [intros H; exfalso; apply H; reflexivity|]. intros H. apply andb_prop in H. destruct H as [H _]. apply IHf in H. exfalso. apply H. reflexivity.
+    + split; [intros H; exfalso; apply H; reflexivity|]. intros H. apply andb_prop in H. destruct H as [H _]. apply andb_prop in H. destruct H as [H _].
+      apply IHd in H. exfalso. apply H. reflexivity.
+Qed.
+
+(* in particular a computed path is never a PROPER PREFIX of the intended one (what a silent truncation would produce) *)
+Corollary compute_never_truncates e s : compute e = Some s -> forall rest, intended e = s ++ rest -> rest = [].
+Proof.
+  intros H rest Hr. apply compute_exact in H. subst s. rewrite <- (app_nil_r (intended e)) in Hr at 1. apply app_inv_head in Hr. symmetry. exact Hr.
+Qed.
+
+Lemma message_path_exact root sub name s :
+  compute (e_message_path root sub name) = Some s -> s = root ++ [47] ++ sub ++ [47] ++ name /\ (length s < PM)%nat.
+Proof.
+  intros H. pose proof (compute_exact _ _ H) as E. cbn [e_message_path e_maildir_dir intended] in E. rewrite <- !app_assoc in E. split; [exact E|].
+  cbn [e_message_path compute] in H. destruct (compute (e_maildir_dir root sub)) as [a|]; [|discriminate]. apply pathjoin_exact in H. apply H.
+Qed.
+
+Lemma delivered_path_exact dest sub newname s :
+  compute (e_delivered_path dest sub newname) = Some s -> s = dest ++ [47] ++ sub ++ [47] ++ newname /\ (length s < PM)%nat.
+Proof.
+  intros H. pose proof (compute_exact _ _ H) as E. cbn [e_delivered_path intended] in E. rewrite <- !app_assoc in E. split; [exact E|].
+  cbn [e_delivered_path compute] in H.
+  destruct (match match bounded_copy PM dest with Some s0 => bounded_copy PM s0 | None => None end with Some a => pathjoin PM a sub | None => None end) as [a|]; [|discriminate].
+  apply pathjoin_exact in H. apply H.
+Qed.
+
+Lemma tmp_template_exact tmpdir s :
+  compute (e_tmp_template tmpdir) = Some s -> s = tmpdir ++ [47] ++ tmpl /\ (length tmpdir + 16 < PM)%nat.
+Proof.
+  intros H. pose proof (compute_exact _ _ H) as E. cbn [e_tmp_template intended] in E. split; [exact E|].
+  cbn [e_tmp_template compute] in H. destruct (bounded_copy PM tmpdir) as [a|] eqn:B; [|discriminate]. apply bounded_copy_exact in B. destruct B as [-> _].
+  apply pathjoin_exact in H. destruct H as [-> H]. rewrite !app_length in H. cbn [length tmpl] in H. lia.
+Qed.
+
 (* ================================================================================================ *)
 (* pathslice                                                                                         *)
 Section Slice.
